@@ -237,11 +237,20 @@ def cases(draw):
         spec["phase_ids"] = list(draw(st.permutations(names)))[:3] if len(names) >= 3 else []
     else:
         spec["requested"], spec["phase_ids"] = [], []
-    spec["threshold"] = draw(st.sampled_from([0.1, 0.001, 1.0, 5.0, 0.0, 0.0, -0.05]))
+    spec["threshold"] = draw(st.sampled_from([0.1, 0.001, 1.0, 5.0, 0.0, 0.0, -0.05, 1e-4, 3e-4]))
+    if draw(st.integers(0, 2)) == 0:
+        # a car that ends its stay a fraction of a watt-hour short of its request: the battery is
+        # full 2e-4 / 5e-4 kWh before the request is met (below the simulator's own 1e-3 kWh
+        # "fully charged" tolerance), and thresholds of that size are asked about
+        x = draw(st.sampled_from(spec["sessions"]))
+        x["battery"] = {"model": "ideal", "cap": 1.0, "init": 0.5, "maxp": 50.0}
+        x["energy"] = 0.5 + draw(st.sampled_from([2e-4, 5e-4]))
+        spec["threshold"] = draw(st.sampled_from([1e-4, 3e-4, 0.0, 1e-3]))
     spec["tz"] = draw(st.sampled_from([None, None, -8, 5.5]))
     spec["analyse"] = draw(st.sampled_from(["direct", "direct", "json_string", "json_path", "json_buffer", "deepcopy"]))
     # (not on the slow-motion scenarios: ten runs of a couple of thousand periods each)
-    spec["sweep"] = draw(st.sampled_from([0] * 5 + [6, 10])) if spec.get("stretch", 1) == 1 else 0
+    small = spec.get("stretch", 1) == 1 and len(spec["sessions"]) <= 8 and len(spec["stations"]) <= 6
+    spec["sweep"] = draw(st.sampled_from([0] * 5 + [6, 10])) if small else 0
     used = {x["station"] for x in spec["sessions"]}
     if spec["stations"][-1]["id"] not in used and not spec.get("early_unplugs") and draw(st.booleans()):
         spec["guest"] = True
